@@ -256,6 +256,9 @@ class Replay(object):
         """compare an observed outcome (+ context afterwards) with the allowed ones"""
         rec = group[0]
         exps = self.expected_values(group, val, special)
+        if cl.has_cycle(pyctx):
+            self.fail("%s:context-contains-itself" % name, rec, context=snap, **kw)
+            return False
         for e in exps:
             if e["ok"] != obs["ok"]:
                 continue
@@ -302,7 +305,6 @@ class Replay(object):
         c = rec["call"]
         path = c["path"]
         dflt = Default()
-        results = []
         for rep in range(2):
             pyctx = cl.decode_s(rec["ctx"], val, {}, self.rnd)
             snap = copy.deepcopy(pyctx)
@@ -333,13 +335,20 @@ class Replay(object):
                     after = r[1]
                     if r[0] is not data or data != ["data", rep]:
                         self.fail("UpdateContext:data-touched", rec, context=snap, observed=repr(r[0])[:80])
-                    if not bare and r[1] is not pyctx and r[1] != pyctx:
+                    if not bare and r[1] is not pyctx and not cl.has_cycle(r[1]) and r[1] != pyctx:
                         self.fail("UpdateContext:context-of-the-value-not-updated", rec, context=snap)
-            if not self.judge("UpdateContext", group, val, special, obs, after, snap, update=repr(update)[:60],
-                              options=kwargs):
+            if not self.judge("UpdateContext" if rep == 0 else "UpdateContext(called again)", group, val, special,
+                              obs, after, snap, update=repr(update)[:60], options=kwargs):
                 return
             if obs["ok"] and after != snap:
-                results.append(after)
+                # the element is used again below: what happens to this result afterwards must not
+                # change the value the element was given
+                found, stored = cl.lookup(after, path)
+                if rep == 0 and found and c["uk"] == "simple":
+                    if isinstance(stored, dict):
+                        stored["changed-later"] = 1
+                    elif isinstance(stored, list):
+                        stored.append("changed-later")
                 # a context item used as the update is deeply copied
                 if c["uk"] == "str" and c["o"]["value"]:
                     src = c["tpl"][0]["p"]
@@ -350,11 +359,6 @@ class Replay(object):
                             self.fail("UpdateContext:context-value-not-copied", rec, context=snap)
             if not made["ok"]:
                 return
-        # the element keeps no reference into the contexts it updated (and vice versa)
-        if len(results) == 2 and c["uk"] == "simple":
-            a, b = (cl.lookup(r, path)[1] for r in results)
-            if set(reach_ids(a)) & set(reach_ids(b)):
-                self.fail("UpdateContext:update-value-shared-between-calls", rec)
 
     def rp_delete(self, group, val):
         rec = group[0]
@@ -602,6 +606,10 @@ def random_trace(ctx, fns, lena, fails, n):
                 obs = observe(do_fuw)
         except Exception as exc:     # noqa
             raise core.MachineryError("random trace driver failed: %r" % (exc,))
+        if cl.has_cycle(d) or (obs["ok"] and cl.has_cycle(obs["r"])):
+            fails.add("%s:context-contains-itself" % trace_key({"call": call, "out": {"ok": True}}).split(":")[0],
+                      10 ** 6, {"call": call, "context": snap})
+            continue
         if obs["ok"]:
             r = obs["r"]
             out = {"ok": True, "r": bool(r) if call["op"] == "contains" else enc.enc(r)}
@@ -689,7 +697,8 @@ def run(ctx):
             def more():
                 f_mc.result()
                 f_laws.result()
-                ctx.mc("ContextOps", "ContextOps_thorough_deep.cfg")
+                ctx.mc("ContextOps", "ContextOps_thorough_deep.cfg")     # depth-3 contexts
+                ctx.mc("ContextOps", "ContextOps_thorough_wide.cfg")     # three keys (design level only)
             f_more = jobs.submit(more)
         misc(ctx, fns, rp.fails)
         nval = 3 if ctx.thorough else 2
